@@ -43,6 +43,13 @@ class ObjInterp(fd.Interp):
         self.depth = depth
         self.hooks = hooks or {}
 
+    def truth(self, v):
+        if isinstance(v, dict):
+            return True                 # a non-null pointer / engaged smart pointer
+        if isinstance(v, list):
+            return True
+        return super().truth(v)
+
     # ---- objects ------------------------------------------------------------------------------------------------------
     def base_of(self, n, env):
         """object a MemberExpr is applied to"""
@@ -95,6 +102,13 @@ class ObjInterp(fd.Interp):
                 if r is not NotImplemented:
                     return r
             return _copy(v)            # copy construction of a value object
+        if k == 'CXXNewExpr':
+            inner = [self.fn.nodes[c] for c in n['ch'] if self.fn.nodes.get(c) and self.fn.nodes[c]['k'] == 'CXXConstructExpr']
+            if inner:
+                v = self.construct_from_facts(inner[0], env, ref=True)
+                if v is not NotImplemented:
+                    return v
+            raise AnalysisBroken('obj: new-expression outside the fragment in %s' % self.fn.name)
         if k in ('CXXConstructExpr', 'CXXTemporaryObjectExpr'):
             ctor = self.hooks.get('construct')
             if ctor is not None:
@@ -144,6 +158,32 @@ class ObjInterp(fd.Interp):
         if n['k'] == 'IfStmt' and n.get('mac'):
             return
         return super().ex(nid, env)
+
+    def construct_from_facts(self, cn, env, ref=False):
+        """build an object from a constructor whose definition (member initialisers + body) is in the facts"""
+        cands = [g for g in self.F.by_name.get(cn.get('callee') or '', []) if g.d.get('inits') is not None]
+        if cn.get('csig'):
+            cands = [g for g in cands if g.sig == cn['csig']] or cands
+        if not cands:
+            return NotImplemented
+        g = cands[0]
+        av = [self.ev(c, env) for c in cn['ch']]
+        o = Ref() if ref else Obj()
+        sub = self.__class__(self.F, g, this=o, depth=self.depth + 1, hooks=self.hooks)
+        e2 = {'%s#%d' % (p_['name'], p_['did']): v for p_, v in zip(g.params, av)}
+        for x in g.d.get('inits', []):
+            nm = x.get('field') or x.get('name')
+            ini = g.nodes.get(x['init'])
+            if ini is not None and ini['k'] == 'CXXDefaultInitExpr':
+                o[nm] = self.hooks.get('default', lambda ty: None)(nm)
+            else:
+                o[nm] = sub.ev(x['init'], e2)
+        if g.body:
+            try:
+                sub.ex(g.body, e2)
+            except fd.Return:
+                pass
+        return o
 
     # ---- calls ---------------------------------------------------------------------------------------------------------
     def call(self, n, env):
@@ -203,6 +243,13 @@ class ObjInterp(fd.Interp):
             if s is not None:
                 return s(self, n, env)
             raise AnalysisBroken('obj: std::sort without a model in %s' % fn.name)
+        if c == 'std::swap' and len(a) == 2:
+            l0, l1 = fn.strip(a[0]), fn.strip(a[1])
+            k0, k1 = self.lkey(l0) if l0 else None, self.lkey(l1) if l1 else None
+            if k0 and k1:
+                env[k0], env[k1] = env.get(k1), env.get(k0)
+                return None
+            raise AnalysisBroken('obj: std::swap of non-local l-values in %s' % fn.name)
         if c in ('std::move', 'std::forward', 'std::static_pointer_cast', 'std::dynamic_pointer_cast'):
             return self.ev(a[0], env)
         # a member / free function with a body in the facts
@@ -224,5 +271,14 @@ class ObjInterp(fd.Interp):
                 # constructor initialisers are handled by the construct hook
                 pass
             r, _ = sub.run(e2)
+            # non-const reference parameters bound to local l-values: copy the final value back (reference semantics for scalars
+            # and pointers; objects are shared anyway)
+            for p, x in zip(g.params, a):
+                ty = (p.get('ty') or '').strip()
+                if ty.endswith('&') and not ty.endswith('&&') and not ty.startswith('const '):
+                    t = fn.strip(x)
+                    lk = self.lkey(t) if t is not None else None
+                    if lk is not None:
+                        env[lk] = e2.get('%s#%d' % (p['name'], p['did']))
             return r
         raise AnalysisBroken('obj: call %s outside the fragment in %s' % (c, fn.name))
